@@ -11,6 +11,11 @@ type LP struct {
 	Desc  string
 	F     func(Label) bool
 	Parts []LP // members of a disjunction
+	// Keyed: built by one of the constructors below from a term key, so Desc
+	// shows every term the predicate speaks about (perIteration uses this to
+	// tell loop-invariant members from members about the loop's own element;
+	// a hand-written predicate is never taken for invariant).
+	Keyed bool
 }
 
 // flat returns the atomic members of a (possibly nested) disjunction.
@@ -37,7 +42,7 @@ func A(s string) LP {
 		s = s[1:]
 	}
 	key := s
-	return LP{Desc: map[bool]string{true: "+", false: "-"}[pol] + key, F: func(l Label) bool {
+	return LP{Keyed: true, Desc: map[bool]string{true: "+", false: "-"}[pol] + key, F: func(l Label) bool {
 		return l.Kind == "atom" && l.Key == key && l.Pol == pol
 	}}
 }
@@ -95,14 +100,14 @@ func AG(s string) LP {
 		s = s[1:]
 	}
 	pat := s
-	return LP{Desc: map[bool]string{true: "+", false: "-"}[pol] + pat, F: func(l Label) bool {
+	return LP{Keyed: true, Desc: map[bool]string{true: "+", false: "-"}[pol] + pat, F: func(l Label) bool {
 		return l.Kind == "atom" && l.Pol == pol && globMatch(pat, l.Key)
 	}}
 }
 
 // CallG: a call event whose resolved key matches a glob pattern.
 func CallG(pat string) LP {
-	return LP{Desc: "call " + pat, F: func(l Label) bool { return l.Kind == "call" && globMatch(pat, l.Key) }}
+	return LP{Keyed: true, Desc: "call " + pat, F: func(l Label) bool { return l.Kind == "call" && globMatch(pat, l.Key) }}
 }
 
 func AnyOf(lps ...LP) LP {
@@ -135,7 +140,7 @@ func CallTo(name string) LP {
 
 // CallKey: a call event with exactly this resolved term key.
 func CallKey(key string) LP {
-	return LP{Desc: "call " + key, F: func(l Label) bool { return l.Kind == "call" && l.Key == key }}
+	return LP{Keyed: true, Desc: "call " + key, F: func(l Label) bool { return l.Kind == "call" && l.Key == key }}
 }
 
 func Note(s string) LP {
@@ -143,7 +148,7 @@ func Note(s string) LP {
 }
 
 func StoreTo(target string) LP {
-	return LP{Desc: "store " + target, F: func(l Label) bool { return (l.Kind == "store" || l.Kind == "lstore") && l.Key == target }}
+	return LP{Keyed: true, Desc: "store " + target, F: func(l Label) bool { return (l.Kind == "store" || l.Kind == "lstore") && l.Key == target }}
 }
 
 func blockedBy(lp LP) func(*PEdge) bool {
@@ -267,7 +272,7 @@ func (c *Check) perIteration(pg *PG, rule, construct, desc string, x string, lp 
 	}
 	var inv []LP
 	for _, m := range lp.flat() {
-		if !strings.Contains(m.Desc, "re("+x+")") && !strings.Contains(m.Desc, "rk("+x+")") {
+		if m.Keyed && !strings.Contains(m.Desc, "re("+x+")") && !strings.Contains(m.Desc, "rk("+x+")") {
 			inv = append(inv, m)
 		}
 	}
